@@ -155,6 +155,10 @@ func c17(r *core.Run) {
 	if ro := resolveMuxRolesFor(r, "G10"); ro != nil {
 		c06AddValidates(r, "G10", ro)
 	}
+	r.Rule("G11", "registration accepts the placeholder forms the grammar accepts (shared with C06.R10): analysed with the current pattern token assumed to be exactly \"*\" (valid for Pattern.IsValid, any number of times in one pattern) and a one-letter literal, the trie insertion reaches no panic", 2)
+	if ro := resolveMuxRolesFor(r, "G11"); ro != nil {
+		c06RegistrationAccepts(r, "G11", ro)
+	}
 	r.Rule("G9", "exact tokenisation: library code never splits with strings/bytes Fields or FieldsFunc (they drop empty tokens, so names with empty tokens are routed like other names and a separators-only name has no first token) and never strips a variable prefix with a cutset function (Trim, TrimLeft, TrimRight)", 1)
 	c17ExactTokens(r, "G9", []string{"", "store", "store/badgerstore", "store/mockstore", "resprot", "middleware", "middleware/resbadger"}, "library")
 	r.Rule("G8", "the pattern handed out at registration is the pattern routed (shared with C06.R11): the registration-time traversal that reconstructs a handler's pattern rebinds the mount index at mount points, as the matcher does; otherwise a handler below a nested mount is told a pattern with its placeholder on another token, and id -> resource id -> id through the transformers is no longer the identity", 2)
@@ -310,72 +314,7 @@ func c17(r *core.Run) {
 	for _, fn := range methodsOf(p, "", "Pattern") {
 		scanners = append(scanners, withAnon(fn)...)
 	}
-	nCmp := 0
-	for _, fn := range scanners {
-		if len(fn.Params) == 0 {
-			continue
-		}
-		recv := ssa.Value(fn.Params[0])
-		if fn.Parent() != nil {
-			continue
-		}
-		for _, b := range fn.Blocks {
-			for _, in := range b.Instrs {
-				bo, ok := in.(*ssa.BinOp)
-				if !ok || bo.Op != token.EQL {
-					continue
-				}
-				k, isC := core.ConstInt(bo.Y)
-				if !isC || !(k == '$' || k == '*' || k == '>') || !fromPatternRecv(bo.X, recv, 0) {
-					continue
-				}
-				nCmp++
-				construct := fmt.Sprintf("wildcard-compare(%q)", rune(k))
-				// (a) guard before: a dominating edge on which the flag is true
-				guarded := false
-				for _, ed := range dominatingEdges(bo) {
-					if isF, neg := condIsFlag(ed.If.Cond); isF {
-						truth := ed.Succ == 0
-						if neg {
-							truth = !truth
-						}
-						if truth {
-							guarded = true
-						}
-					}
-				}
-				// (b) guard right after: the block on the true edge tests the flag first
-				if !guarded && bo.Referrers() != nil {
-					for _, rf := range *bo.Referrers() {
-						iff, ok := rf.(*ssa.If)
-						if !ok {
-							continue
-						}
-						tb := skipJumps(iff.Block().Succs[0])
-						if i2, ok := tb.Instrs[len(tb.Instrs)-1].(*ssa.If); ok {
-							if isF, _ := condIsFlag(i2.Cond); isF && onlyPureBefore(tb) {
-								guarded = true
-							}
-						}
-					}
-				}
-				if guarded {
-					r.OK("G1", core.FuncName(fn), construct, p.InstrPos(bo), "wildcard meaning only when the token-start flag holds")
-					continue
-				}
-				if fn.Name() == "Values" {
-					// witness: the literal branch (false edge of the last wildcard compare) has an inner loop
-					if literalBranchConsumesToken(fn, recv) {
-						r.ExemptObl("G1", core.FuncName(fn), construct, p.InstrPos(bo), "Values re-enters its switch only at token starts: the literal branch consumes the rest of the token in an inner loop that exits on '.', end or mismatch (witness checked)")
-					} else {
-						r.Bad("G1", core.FuncName(fn), construct, p.InstrPos(bo), "Values' literal branch no longer consumes a whole token, so its unguarded wildcard comparisons can hit mid-token bytes")
-					}
-					continue
-				}
-				r.Bad("G1", core.FuncName(fn), construct, p.InstrPos(bo), "a pattern byte is given wildcard meaning without a token-start guard: '$', '*' or '>' in the middle of a token is treated as a wildcard by this operation but as a literal by the others")
-			}
-		}
-	}
+	nCmp := c17WildcardGuard(r, "G1", nil)
 	r.Analysed["wildcard_comparisons"] = nCmp
 	// ... and a pattern byte is compared literally with a byte of the argument only after the
 	// wildcard question was asked: a test of the token-start flag or of the pattern byte against
@@ -479,39 +418,7 @@ func c17(r *core.Run) {
 	}
 
 	// ---- G2 --------------------------------------------------------------
-	type vf struct {
-		name string
-		fn   *ssa.Function
-	}
-	vals := []vf{{"(Pattern).IsValid", methodNamed(p, "", "Pattern", "IsValid")}, {"IsValidRID", p.Func("IsValidRID")}, {"isValidPart", p.Func("isValidPart")}}
-	for _, v := range vals {
-		if v.fn == nil {
-			r.Unres("G2", v.name, "missing")
-			continue
-		}
-		// the accepted class under "every character of the argument is v" (one dataflow run per v)
-		cc := classOf(p, v.fn)
-		bad := ""
-		for _, ch := range charReps {
-			if cc.Accept[ch] && (ch < 33 || ch > 126) && bad == "" {
-				bad = fmt.Sprintf("accepts character %#x outside 33..126", ch)
-			}
-		}
-		for _, ch := range "azAZ09_-" {
-			if !cc.Accept[int(ch)] && bad == "" {
-				bad = fmt.Sprintf("rejects the ordinary character %q", ch)
-			}
-		}
-		if cc.Extractions == 0 {
-			bad = "does not look at the characters of its argument"
-		}
-		q := cc.ComparesWith['?']
-		if !q && bad == "" {
-			bad = "does not single out '?'"
-		}
-		sig := fmt.Sprintf("accepts only 33..126 (all of a-z A-Z 0-9 _ -), singles out '?'=%v", q)
-		r.Check(bad == "", "G2", v.name, "character-class", p.Pos(v.fn.Pos()), sig, "validators disagree on the character class: "+v.name+" "+bad+" (expected: exactly the printable non-space ASCII range 33..126 with '?' special)")
-	}
+	c17CharClass(r, "G2", nil)
 
 	// ---- G3 --------------------------------------------------------------
 	isRepl := func(c ssa.CallInstruction) bool {
@@ -719,4 +626,128 @@ func c17ExactTokens(r *core.Run, rule string, rels []string, what string) {
 		}
 	}
 	r.OK(rule, what, "exact-tokenisation-and-prefix-stripping", "-", fmt.Sprintf("%d strings/bytes calls scanned: no Fields/FieldsFunc, no Trim* with a variable cutset", nScan))
+}
+
+// c17WildcardGuard: every comparison of a pattern byte with '$', '*' or '>'
+// in the pattern operations selected by only gives the byte wildcard meaning
+// under the token-start flag (C17.G1; C09 shares it for Matches, which decides
+// which owned pattern covers which).
+func c17WildcardGuard(r *core.Run, rule string, only func(*ssa.Function) bool) int {
+	p := r.P
+	var scanners []*ssa.Function
+	for _, fn := range methodsOf(p, "", "Pattern") {
+		if only == nil || only(fn) {
+			scanners = append(scanners, withAnon(fn)...)
+		}
+	}
+	nCmp := 0
+	for _, fn := range scanners {
+		if len(fn.Params) == 0 {
+			continue
+		}
+		recv := ssa.Value(fn.Params[0])
+		if fn.Parent() != nil {
+			continue
+		}
+		for _, b := range fn.Blocks {
+			for _, in := range b.Instrs {
+				bo, ok := in.(*ssa.BinOp)
+				if !ok || bo.Op != token.EQL {
+					continue
+				}
+				k, isC := core.ConstInt(bo.Y)
+				if !isC || !(k == '$' || k == '*' || k == '>') || !fromPatternRecv(bo.X, recv, 0) {
+					continue
+				}
+				nCmp++
+				construct := fmt.Sprintf("wildcard-compare(%q)", rune(k))
+				// (a) guard before: a dominating edge on which the flag is true
+				guarded := false
+				for _, ed := range dominatingEdges(bo) {
+					if isF, neg := condIsFlag(ed.If.Cond); isF {
+						truth := ed.Succ == 0
+						if neg {
+							truth = !truth
+						}
+						if truth {
+							guarded = true
+						}
+					}
+				}
+				// (b) guard right after: the block on the true edge tests the flag first
+				if !guarded && bo.Referrers() != nil {
+					for _, rf := range *bo.Referrers() {
+						iff, ok := rf.(*ssa.If)
+						if !ok {
+							continue
+						}
+						tb := skipJumps(iff.Block().Succs[0])
+						if i2, ok := tb.Instrs[len(tb.Instrs)-1].(*ssa.If); ok {
+							if isF, _ := condIsFlag(i2.Cond); isF && onlyPureBefore(tb) {
+								guarded = true
+							}
+						}
+					}
+				}
+				if guarded {
+					r.OK(rule, core.FuncName(fn), construct, p.InstrPos(bo), "wildcard meaning only when the token-start flag holds")
+					continue
+				}
+				if fn.Name() == "Values" {
+					// witness: the literal branch (false edge of the last wildcard compare) has an inner loop
+					if literalBranchConsumesToken(fn, recv) {
+						r.ExemptObl(rule, core.FuncName(fn), construct, p.InstrPos(bo), "Values re-enters its switch only at token starts: the literal branch consumes the rest of the token in an inner loop that exits on '.', end or mismatch (witness checked)")
+					} else {
+						r.Bad(rule, core.FuncName(fn), construct, p.InstrPos(bo), "Values' literal branch no longer consumes a whole token, so its unguarded wildcard comparisons can hit mid-token bytes")
+					}
+					continue
+				}
+				r.Bad(rule, core.FuncName(fn), construct, p.InstrPos(bo), "a pattern byte is given wildcard meaning without a token-start guard: '$', '*' or '>' in the middle of a token is treated as a wildcard by this operation but as a literal by the others")
+			}
+		}
+	}
+	return nCmp
+}
+
+// c17CharClass: the validators accept exactly the printable non-space ASCII
+// range and single out '?' (C17.G2; C18 shares it for IsValidRID, which
+// decides what a Ref may hold).
+func c17CharClass(r *core.Run, rule string, only map[string]bool) {
+	p := r.P
+	type vf struct {
+		name string
+		fn   *ssa.Function
+	}
+	vals := []vf{{"(Pattern).IsValid", methodNamed(p, "", "Pattern", "IsValid")}, {"IsValidRID", p.Func("IsValidRID")}, {"isValidPart", p.Func("isValidPart")}}
+	for _, v := range vals {
+		if only != nil && !only[v.name] {
+			continue
+		}
+		if v.fn == nil {
+			r.Unres(rule, v.name, "missing")
+			continue
+		}
+		// the accepted class under "every character of the argument is v" (one dataflow run per v)
+		cc := classOf(p, v.fn)
+		bad := ""
+		for _, ch := range charReps {
+			if cc.Accept[ch] && (ch < 33 || ch > 126) && bad == "" {
+				bad = fmt.Sprintf("accepts character %#x outside 33..126", ch)
+			}
+		}
+		for _, ch := range "azAZ09_-" {
+			if !cc.Accept[int(ch)] && bad == "" {
+				bad = fmt.Sprintf("rejects the ordinary character %q", ch)
+			}
+		}
+		if cc.Extractions == 0 {
+			bad = "does not look at the characters of its argument"
+		}
+		q := cc.ComparesWith['?']
+		if !q && bad == "" {
+			bad = "does not single out '?'"
+		}
+		sig := fmt.Sprintf("accepts only 33..126 (all of a-z A-Z 0-9 _ -), singles out '?'=%v", q)
+		r.Check(bad == "", rule, v.name, "character-class", p.Pos(v.fn.Pos()), sig, "validators disagree on the character class: "+v.name+" "+bad+" (expected: exactly the printable non-space ASCII range 33..126 with '?' special)")
+	}
 }
